@@ -233,8 +233,19 @@ def gen_spec(seed, index, tier):
             cand = gen.gen_base(shape_rng, cls)
         else:
             lo = -0.3 if cls == "Polyhedron" else -1.5
-            cand = gen.gen_base(shape_rng, cls, scale=10 ** shape_rng.uniform(lo, 1.6),
-                                offset_diam=shape_rng.choice([1.0, 1.0, 3.0, 10.0]))
+            kw = {}
+            sc = 10 ** shape_rng.uniform(lo, 1.6)
+            if cls in ("ConvexPolyhedron", "ConvexSpheropolyhedron"):
+                r = shape_rng.random()
+                if r < 0.08:
+                    # the hull-based classes use no vendored helper with absolute
+                    # tolerances: some runs live at very small sizes
+                    sc = 10 ** shape_rng.uniform(-9, -3)
+                elif r < 0.16:
+                    # almost axis-aligned: coordinates about the centre tiny but not zero
+                    kw = {"rotate": False, "noise": 10 ** shape_rng.uniform(-10, -7.5)}
+            cand = gen.gen_base(shape_rng, cls, scale=sc,
+                                offset_diam=shape_rng.choice([1.0, 1.0, 3.0, 10.0]), **kw)
         try:
             gen.build(cand)
             base = cand
@@ -582,11 +593,25 @@ def execute(spec, world):
             # drift since the start: one allowance of last-digit rounding per operation
             d = observe.diff_unchanged(snap0, snap1, nbase=probes["n_base"],
                                        skip=skip0 | skip1 | skip_q, ops=si - k0 + 1)
+        strict = None
+        if not d and observe.geometry_bitwise_same(snap_prev, snap1):
+            # the property allows last-digit rounding "for operations that internally move
+            # the shape and move it back"; this one left the defining geometry bit-for-bit
+            # alone, so nothing else may differ either (observables are deterministic
+            # functions of the state: same deep copy, same RNG seeds)
+            C["strict_comparisons"] += 1
+            strict = observe.diff_exact(snap_prev, snap1, skip=skip_prev | skip1 | skip_q)
         snap_prev, skip_prev = snap1, skip1
         if d:
             res["violations"].append(violation(
                 PROP, "observable-changed", "after %s (%s), %s: %s" % (
                     qname, outcome, d[0][0], d[0][1]), si, cls=cls, op=qname, obs=d[0][0]))
+            break
+        if strict:
+            res["violations"].append(violation(
+                PROP, "observable-changed", "after %s (%s) the defining geometry is bit-for-bit "
+                "unchanged but %s is %s" % (qname, outcome, strict[0][0], strict[0][1]), si,
+                cls=cls, op=qname, obs=strict[0][0], what="exact"))
             break
 
         # 4. repeating the query (different RNG seed) returns the same answer
